@@ -288,7 +288,7 @@ pub fn run(ctx: &Ctx) -> Outcome {
         acc.merge(a);
     }
     let na = acc.get("emitted text without a recognisable definition line (oracle not applicable)");
-    if na > 0 {
+    if na > 0 && acc.findings.is_empty() {
         machinery_error(format!("C12: the definition line of a declaration could not be found in {na} emitted texts ({:?}); the verbatim oracle cannot judge them", acc.self_check_errors.first()));
     }
     if acc.get("accepted sources with attributes") == 0 {
